@@ -1,2 +1,83 @@
-From BFS Require Import Layers.Call.
-Example placeholder_c14 : prefixfs_readlink_result [47; 97] [47; 97] = [47]. Proof. reflexivity. Qed.
+(** C14 — PrefixFS is a faithful, leak-free re-rooting. *)
+From BFS Require Import Layers.Call Layers.LayerSpec.
+From BFS Require Import Proofs.PrefixFacts.
+
+(** A name stays inside iff prefix + cleaned name is within the prefix; then
+    the mapped path is exactly prefix + cleaned name. *)
+Theorem C14_prefix_path_eq :
+  forall pfx n, cleaned pfx -> within pfx (join2 pfx (clean n)) ->
+  prefix_path pfx n = Some (join2 pfx (clean n)).
+Proof. exact prefix_path_eq. Qed.
+Print Assumptions C14_prefix_path_eq.
+
+(** Absolute prefix: every name stays inside (".." cannot climb above the root
+    of the view) - the mapping is total. *)
+Theorem C14_absolute_names_inside :
+  forall pfx n, cleaned pfx -> is_abs pfx = true -> is_abs n = true ->
+  prefix_path pfx n = Some (join2 pfx (clean n)).
+Proof. exact prefix_path_abs_total. Qed.
+Print Assumptions C14_absolute_names_inside.
+
+(** Every single-path method on an in-prefix name is the same method, same
+    other arguments, at prefix + cleaned name. *)
+Theorem C14_refines_single :
+  forall pfx m n aux, cleaned pfx -> two_paths m = false ->
+  within pfx (join2 pfx (clean n)) ->
+  prefixfs_call pfx (mkCall m n [] aux) = Fwd (mkCall m (join2 pfx (clean n)) [] aux).
+Proof. exact prefixfs_refines_single. Qed.
+Print Assumptions C14_refines_single.
+
+Theorem C14_refines_rename :
+  forall pfx a b aux, cleaned pfx ->
+  within pfx (join2 pfx (clean a)) -> within pfx (join2 pfx (clean b)) ->
+  prefixfs_call pfx (mkCall MRename a b aux) =
+  Fwd (mkCall MRename (join2 pfx (clean a)) (join2 pfx (clean b)) aux).
+Proof. exact prefixfs_refines_rename. Qed.
+Print Assumptions C14_refines_rename.
+
+(** Names reported back never contain the prefix: for a path [a'] within an
+    absolute prefix, an opened file reports the path relative to the prefix as
+    root, a file info reports "/" for the root and the base name otherwise. *)
+Theorem C14_file_name :
+  forall pfx a' rest, cleaned pfx -> is_abs pfx = true -> cleaned a' ->
+  comps a' = comps pfx ++ rest ->
+  prefixfs_file_name pfx a' = render true rest.
+Proof. exact prefixfs_file_name_spec. Qed.
+Print Assumptions C14_file_name.
+
+Theorem C14_info_name :
+  forall pfx a', cleaned pfx -> is_abs pfx = true -> cleaned a' -> within pfx a' ->
+  prefixfs_info_name pfx a' = if str_eqb a' pfx then s_root else base a'.
+Proof. exact prefixfs_info_name_spec. Qed.
+Print Assumptions C14_info_name.
+
+(** Readlink: an absolute stored target below the prefix is reported relative
+    to the prefix as root; anything else is reported cleaned. *)
+Theorem C14_readlink_inside :
+  forall pfx linked rest, cleaned pfx -> is_abs pfx = true -> is_abs linked = true ->
+  comps (clean linked) = comps pfx ++ rest ->
+  prefixfs_readlink_result pfx linked = render true rest.
+Proof. exact prefixfs_readlink_inside. Qed.
+Print Assumptions C14_readlink_inside.
+
+Theorem C14_readlink_relative :
+  forall pfx linked, is_abs linked = false -> prefixfs_readlink_result pfx linked = clean linked.
+Proof. exact prefixfs_readlink_relative. Qed.
+Print Assumptions C14_readlink_relative.
+
+(** Symlink followed by Readlink returns the cleaned target that was given
+    (absolute prefix; absolute or relative target that stays inside). *)
+Theorem C14_symlink_readlink :
+  forall pfx t n aux c', cleaned pfx -> is_abs pfx = true ->
+  prefixfs_call pfx (mkCall MSymlink t n aux) = Fwd c' ->
+  prefixfs_readlink_result pfx (c_a c') = clean t.
+Proof. exact prefixfs_symlink_readlink. Qed.
+Print Assumptions C14_symlink_readlink.
+
+Example C14_example :
+  (* prefix "/r/app": Readlink of a link to the prefix directory reads "/" *)
+  prefixfs_readlink_result [47;114;47;97;112;112] [47;114;47;97;112;112] = [47] /\
+  (* a sibling target is not cut at string level *)
+  prefixfs_readlink_result [47;114;47;97;112;112] [47;114;47;97;112;112;50;47;120] = [47;114;47;97;112;112;50;47;120] /\
+  prefixfs_file_name [47;114] [47;114;47;120] = [47;120].
+Proof. vm_compute. repeat split; reflexivity. Qed.
